@@ -21,6 +21,10 @@ def shapes():
         out.append({"dll": dll, "mode": "bam", "packets": 3, "win": 1})
         for win in (1, 2, 255):
             out.append({"dll": dll, "mode": "rts", "packets": 4 if win != 2 else 5, "win": win})
+        # two transfers of one originator at the same time (to two CAs of the responder stack): a frame of one session is
+        # handled while the job thread is part-way through its pass over BOTH sessions
+        out.append({"dll": dll, "mode": "rts2", "packets": 3, "win": 1})
+        out.append({"dll": dll, "mode": "rts+bam", "packets": 3, "win": 255})
     return out
 
 
@@ -82,17 +86,24 @@ class C08:
             r = w.stack("R", dll=p["dll"], max_cmdt=p["win"])
             o.add_ca("o", 0x100, SA_O)
             r.add_ca("r", 0x200, SA_R)
+            r.add_ca("r2", 0x201, SA_R + 1)
             o.listen_ca("o")
             r.listen_ca("r")
+            r.listen_ca("r2")
             da = 255 if p["mode"] == "bam" else SA_R
             data = W.make_payload({"n": size, "cls": "pos", "seg": seg})
+            dataB = W.make_payload({"n": size + seg, "cls": "arith", "a": 9, "b": 5})
             res = {}
 
             def submit():
                 w.sim.trace_armed = True
                 res["r1"] = o.cas["o"].send_pgn(0, PF, da, 6, list(data))
+                if p["mode"] == "rts2":
+                    res["rB"] = o.cas["o"].send_pgn(0, PF + 1, SA_R + 1, 6, list(dataB))
+                elif p["mode"] == "rts+bam":
+                    res["rB"] = o.cas["o"].send_pgn(0, PF + 1, 255, 6, list(dataB))
             w.at(0.05, submit)
-            horizon = w.t0 + 0.05 + (p["packets"] + 2) * 0.06 + 0.5 + (3.2 if fd and p["mode"] == "rts" else 0)
+            horizon = w.t0 + 0.05 + (p["packets"] + 3) * 0.06 + 0.5 + (3.2 if fd and p["mode"] in ("rts", "rts2", "rts+bam") else 0)
             if t_follow is None:
                 # baseline: measure when both sides are idle again (when the tables are readable)
                 w.run_until(w.t0 + 0.051)
@@ -101,7 +112,8 @@ class C08:
                     if po is None or pr is None:
                         w.run_until(horizon)
                         break
-                    if not any(po) and not any(pr) and r.deliveries:
+                    need = 1 if p["mode"] in ("bam", "rts") else (2 if p["mode"] == "rts2" else 3)
+                    if not any(po) and not any(pr) and len(r.deliveries) >= need:
                         break
                     w.run_for(0.005)
                 obs["t_idle"] = w.sim.now - w.t0
@@ -110,7 +122,10 @@ class C08:
             w.sim.trace_armed = False
             obs["lines"] = dict(w.sim.line_counts)
             obs["r1"] = res.get("r1")
-            obs["deliv"] = [(d[3], d[4], d[5]) for d in r.deliveries]
+            obs["deliv"] = [(d[3], d[4], d[5]) for d in r.deliveries if d[3] == (PF << 8) and d[1] == "r"]
+            obs["delivB"] = [(d[1], d[3], d[4], d[5]) for d in r.deliveries if d[3] == ((PF + 1) << 8)]
+            obs["rB"] = res.get("rB")
+            obs["dataB"] = bytes(dataB)
             obs["data"] = bytes(data)
             obs["tables"] = (o.peek_sessions(), r.peek_sessions())
             obs["preempts"] = [x for x in w.sim.obs if x[1] == "preempt"]
@@ -127,8 +142,8 @@ class C08:
                 obs["r2"] = o.cas["o"].send_pgn(0, PF, da, 6, list(data2))
             except Exception as e:  # noqa
                 obs["r2"] = "EXC:%r" % (e,)
-            w.run_for((p["packets"] + 2) * 0.06 + 0.5)
-            obs["deliv2"] = [(d[3], d[4], d[5]) for d in r.deliveries[nd:]]
+            w.run_for((p["packets"] + 3) * 0.06 + 0.5)
+            obs["deliv2"] = [(d[3], d[4], d[5]) for d in r.deliveries[nd:] if d[1] == "r"]
             obs["data2"] = bytes(data2)
             obs["live"] = w.liveness_problems()
             obs["alive"] = o.alive() and r.alive()
@@ -158,6 +173,14 @@ class C08:
             V("corrupt", "payload differs from what was sent (pre-empted at %s)" % where, site)
         if len(obs["deliv"]) != len(got):
             V("invented-delivery", "unrelated delivery at the receiver", site)
+        if p["mode"] in ("rts2", "rts+bam"):
+            want = 1 if p["mode"] == "rts2" else 2          # the broadcast reaches both CAs of the responder stack
+            gb = [d for d in obs["delivB"] if d[3] == obs["dataB"]]
+            if obs["rB"] is not True:
+                V("send-refused", "second send_pgn returned %r" % (obs["rB"],), site)
+            elif len(gb) != want or len(obs["delivB"]) != want:
+                V("not-delivered" if len(gb) < want else "delivered-twice", "the concurrent second transfer was delivered %d times "
+                  "(expected %d); job thread pre-empted at %s" % (len(gb), want, where), site + "|second")
         to, tr = obs["tables"]
         if (to is not None and any(to)) or (tr is not None and any(tr)):
             V("session-stuck", "session tables still occupied (%r %r) 0.1 s + the pre-emption time after the moment the "
